@@ -157,6 +157,9 @@ class Findings:
             return v in str(sig.get('detail', ''))
         if k.endswith('_contains'):
             return v in str(sig.get(k[:-9], ''))
+        if k.endswith('_regex'):
+            import re
+            return re.search(v, str(sig.get(k[:-6], ''))) is not None
         if isinstance(v, list):
             return sig.get(k) in v or str(sig.get(k)) in [str(x) for x in v]
         return str(sig.get(k)) == str(v)
